@@ -1,6 +1,6 @@
 From Coq Require Import Reals Bool Lra.
 From PP Require Import Kern.RBool C02.Spec Gen.KHydIncompNp Gen.KHydIncompNb Gen.KHydCompNp Gen.KHydCompNb Gen.KPmNp
-  Gen.KFriction Gen.KBasicRes Gen.KGasResNp Gen.KGasResNb Gen.KPamb.
+  Gen.KFriction Gen.KBasicRes Gen.KGasResNp Gen.KGasResNb Gen.KPamb Gen.KBranchProps.
 Open Scope R_scope.
 
 Lemma Rabs_sq_pos m : 0 <= m -> Rabs m * m = m ^ 2.
@@ -241,6 +241,29 @@ Proof.
   intros. unfold gasvel_nb_normfactor_from, gasvel_nb_normfactor_to, gasvel_nb_normfactor_mean, gasvel_nb_v_gas_from,
     gasvel_nb_v_gas_to, gasvel_nb_v_gas_mean, doc_normfactor, pN_pa, bar, TN_k. cbv zeta.
   repeat split; field; lra.
+Qed.
+
+(* which state enters the fluid properties of a branch (get_branch_real_eta / get_branch_real_density; the fluid functions are
+   arbitrary): viscosity at the mean of the INLET temperature (node the flow comes from) and the branch's OUTLET temperature,
+   liquid density = mean of the densities at these two temperatures, gas density = mean of the real-gas densities at
+   (p, T) of the inlet node and (p of the outlet node, outlet temperature) *)
+Lemma branch_props_lemma :
+  (forall (bp_TOUTINIT : R) (fl_viscosity : R -> R -> R) (np_inlet_TINIT pm : R),
+     real_eta_eta bp_TOUTINIT fl_viscosity np_inlet_TINIT pm = fl_viscosity ((np_inlet_TINIT + bp_TOUTINIT) / 2) pm) /\
+  (forall (bp_TOUTINIT : R) (fl_density : R -> R) (np_inlet_TINIT : R),
+     real_rho_liq_rho bp_TOUTINIT fl_density np_inlet_TINIT = (fl_density np_inlet_TINIT + fl_density bp_TOUTINIT) / 2) /\
+  (forall (bp_TOUTINIT : R) (fl_compressibility : R -> R -> R) (fl_density : R -> R)
+          (np_inlet_PAMB np_inlet_PINIT np_inlet_TINIT np_outlet_PAMB np_outlet_PINIT : R),
+     let rho_at p T := fl_density TN_k * TN_k * p / (T * (pN_pa / bar) * fl_compressibility p T) in
+     real_rho_gas_rho bp_TOUTINIT fl_compressibility fl_density np_inlet_PAMB np_inlet_PINIT np_inlet_TINIT np_outlet_PAMB
+                      np_outlet_PINIT
+       = (rho_at (np_inlet_PINIT + np_inlet_PAMB) np_inlet_TINIT + rho_at (np_outlet_PINIT + np_outlet_PAMB) bp_TOUTINIT) / 2).
+Proof.
+  split; [| split].
+  - intros. unfold real_eta_eta. cbv zeta. reflexivity.
+  - intros. unfold real_rho_liq_rho. cbv zeta. reflexivity.
+  - intros. subst rho_at. unfold real_rho_gas_rho, TN_k, pN_pa, bar. cbv zeta beta.
+    replace (27315 / 100) with (5463 / 20) by lra. replace (101325 / 100000) with (4053 / 4000) by lra. reflexivity.
 Qed.
 
 Lemma pamb_lemma : forall h : R, p_correction_height_air_p h = doc_p_air h.
